@@ -94,8 +94,8 @@ class Session:
         except Exception:
             ceid, vals = None, []
         with self.lock:
-            if ceid == 50 and vals:
-                self.received.append(vals[0])
+            if ceid in (50, 21) and vals:
+                self.received.append((ceid, vals[0]))
 
     def _on_alarm(self, data):
         with self.lock:
@@ -213,7 +213,12 @@ class Session:
             if stuck.blocked_forever([th], watch=0.6):
                 self.violation(f"call-blocked-forever:{name}", stacks=stuck.stacks(6))
             else:
-                self.ctx.unsure(f"call {name} did not return within {timeout}s")
+                import sys
+                import traceback
+                fr = sys._current_frames().get(th.ident)
+                own = [f"{f.filename.split('/')[-1]}:{f.lineno} {f.name}" for f in traceback.extract_stack(fr)[-8:]] if fr else []
+                busy = {n: st[-4:] for n, st in stuck.stacks(6).items() if "dispatcher" not in n or "wait" not in st[-1]}
+                self.ctx.unsure(f"call {name} did not return within {timeout}s; its stack: {own}; other threads: {busy}; {self.wit()}"[:3000])
                 self.bad = True
             return None, "timeout"
         if "exc" in box:
@@ -303,13 +308,23 @@ class Session:
         elif r < 0.85:
             self.host_call("are_you_there()", lambda: host.are_you_there(), None, compare=lambda g: g is not None)
         elif r < 0.94 and self.subscribed:
+            from secsgem.gem import CollectionEventId
+
             n = next(self.counter)
             self.dv.value = n
-            self.hist.append(f"trigger(50) counter={n}")
-            linked = 50 in eq.registered_collection_events and eq.registered_collection_events[50].enabled
-            eq.trigger_collection_events([50])
+            # the id forms the API accepts: plain numbers and members of the library's CollectionEventId enumeration
+            form = rng.choice(["[50]", "[50]", "[enum 21, 50]", "[50, enum 21]", "[21]", "[enum 21]"])
+            ids = {"[50]": [50], "[enum 21, 50]": [CollectionEventId.CMD_STOP_DONE, 50], "[50, enum 21]": [50, CollectionEventId.CMD_STOP_DONE],
+                   "[21]": [21], "[enum 21]": [CollectionEventId.CMD_STOP_DONE]}[form]
+            self.hist.append(f"trigger({form}) counter={n}")
+            plain = [i.value if isinstance(i, CollectionEventId) else i for i in ids]
+            linked = [c for c in plain if c in eq.registered_collection_events and eq.registered_collection_events[c].enabled]
+            eq.trigger_collection_events(ids)
+            if "enum" in form:
+                self.ctx.count("oracle.events_triggered_by_enum_id")
+            for c in linked:
+                self.triggered.append((c, n))
             if linked:
-                self.triggered.append(n)
                 self.wait_events()
         elif r < 0.97:
             a = rng.choice([100, 101])
@@ -337,6 +352,11 @@ class Session:
         link = self.eq.registered_collection_events.get(50)
         if link is None or not link.enabled or list(link.reports) != [4000]:
             self.violation("subscription-not-registered-at-equipment")
+            return
+        # one of the library's own collection events (CMD_STOP_DONE = 21), to be triggered through its enumeration member
+        _, err = self.call("subscribe", lambda: self.host.subscribe_collection_event(21, [30], report_id=4001))
+        if err is not None and not self.bad:
+            self.violation("subscribe_collection_event-fails", error=repr(err)[:200], ceid=21)
 
     def wait_events(self):
         want = len(self.triggered)
@@ -352,8 +372,8 @@ class Session:
             alarms = list(self.alarm_events)
         self.ctx.count("oracle.events_exactly_once", len(self.triggered))
         if sorted(got) != sorted(self.triggered):
-            missing = [n for n in self.triggered if n not in got]
-            dup = sorted({n for n in got if got.count(n) > 1})
+            missing = [list(n) for n in self.triggered if n not in got]
+            dup = [list(n) for n in sorted({n for n in got if got.count(n) > 1})]
             self.violation(f"collection-events-not-exactly-once:{'lost' if missing else 'duplicated' if dup else 'unexpected'}:{where}",
                            triggered=self.triggered[-10:], received=got[-10:], missing=missing[:5], duplicated=dup[:5])
             return
